@@ -263,6 +263,17 @@ func (t Template) capCoins() sdk.Coins {
 	return coins(t.Cap)
 }
 
+// actBindCoins / actUpdateCoins: deposits given as arbitrary coins (other denominations).
+func actBindCoins(svc, prov, owner string, dep sdk.Coins, pr string) Action {
+	return Action{Name: fmt.Sprintf("bind(%s,%s,%s,%s,%s)", svc, prov, owner, dep, pr), Kind: "bind", Svc: svc, Prov: A(prov), Signer: A(owner),
+		Pricing: pricingText(pr), QoS: 1, Tmpl: -1, Msg: st.NewMsgBindService(svc, A(prov), dep, pricingText(pr), 1, "{}", A(owner))}
+}
+
+func actUpdateCoins(svc, prov, owner string, dep sdk.Coins) Action {
+	return Action{Name: fmt.Sprintf("update(%s,%s,%s,+%s)", svc, prov, owner, dep), Kind: "update", Svc: svc, Prov: A(prov), Signer: A(owner), Tmpl: -1,
+		Msg: st.NewMsgUpdateServiceBinding(svc, A(prov), dep, "", 0, "{}", A(owner))}
+}
+
 // actBindBig: a binding whose price and deposit are beyond int64 (decimal strings).
 func actBindBig(svc, prov, owner, dep, price string, qos uint64) Action {
 	return actBindBigText(svc, prov, owner, dep, price, `{"price":"`+price+`stake"}`, qos)
